@@ -109,6 +109,28 @@ def vacuity_probe(unit_name, rl):
     return dict(status='ok', probes=len(d['probes']), functions=len(by_fn), vacuous=vac, functions_with_an_unreachable_exit=dead)
 
 
+def second_opinion(unit_name, rl):
+    """a function that fails under Verus' default loop isolation is verified once more with `loop_isolation(false)` (every loop sees the
+    facts established before it: e.g. the defining equation of a `let` hoisted out of a loop by a harmless refactoring).  Both modes are
+    sound, so a function that verifies COMPLETELY in the second mode holds its contract; only a function that fails in both is reported.
+    Returns the set of function names with any failure in the second run, or None if that run could not be made."""
+    import subprocess
+    code = ('import sys, json; sys.path.insert(0, %r); sys.path.insert(0, %r); import importlib, verus; m = importlib.import_module(%r); u = m.build(); '
+            'p, meta = u.write(%r); r = verus.run(p, rlimit=%r); verus.attribute(r, meta); '
+            'print(json.dumps(dict(fe=r["front_end_error"], failed=sorted({(d.get("function") or "?") for d in r["diags"]}))))'
+            % (HERE, os.path.join(HERE, 'units'), unit_name, os.path.join(os.environ.get('VERIF_GEN_DIR') or os.path.join(VERIF, '.cache'), 'second_opinion'), rl))
+    env = dict(os.environ, VERIF_NO_LOOP_ISOLATION='1')
+    env.pop('VERIF_VACUITY', None)
+    try:
+        p = subprocess.run([sys.executable, '-c', code], env=env, capture_output=True, text=True, timeout=1200)
+        d = json.loads(p.stdout.strip().split('\n')[-1])
+    except Exception:
+        return None
+    if d['fe']:
+        return None
+    return set(d['failed'])
+
+
 def fn_range(meta, qname, line):
     """is generated line `line` inside function `qname`?"""
     for q, l0, l1 in meta['functions']:
@@ -201,6 +223,8 @@ def main(argv):
     undecided = []
     obligations = {}     # tag -> dict(status, unit, backend)
     reach = {}
+    second = {}          # unit -> functions failing in the loop_isolation(false) run (None: run not available)
+    notes = []
     fn_evidence = []
     assumptions = set()
     smt_ms = 0.0
@@ -234,6 +258,16 @@ def main(argv):
                         ov = (q, o)
                         if q == fn:
                             break
+            if fn and d['kind'] != 'resource':
+                # second opinion: does the function fail with loop_isolation(false) too?  (lazy: one extra run per failing unit)
+                if un not in second:
+                    second[un] = second_opinion(un, getattr(importlib.import_module(un), 'RLIMIT', None))
+                if second[un] is not None and fn not in second[un] and fn.split('::')[-1] not in {x.split('::')[-1] for x in second[un]}:
+                    # the whole function verifies in that mode: the failure was an artefact of loop isolation (e.g. a `let` hoisted out of a
+                    # loop lost its defining equation), not of the code
+                    notes.append('%s: %s failed under loop isolation (%s: %s) but verifies completely with loop_isolation(false): discharged'
+                                 % (un, fn, d['kind'], ','.join(d['tags']) or 'untagged'))
+                    continue
             if d['kind'] == 'resource':
                 if ov and (pid in ov[1].get('props', []) or any(pid in tag_props(t or '') for t, _ in ov[1]['ensures'] if t)):
                     undecided.append('%s: resource limit in %s' % (un, fn))
@@ -372,6 +406,7 @@ def main(argv):
             kani_time_s=(extra or {}).get('kani_time_s', {}),
             known_findings=known_hits,
             undecided=undecided,
+            second_opinion_notes=notes,
             not_covered_clauses=spec.get('not_covered', []),
             explanation=spec.get('explanation', ''),
         ),
